@@ -755,6 +755,71 @@ impl Family for TlsGarbage {
     }
 }
 
+
+/// statement lifecycles as a source of inconsistent input: every sequence of <= 5 actions over
+/// re-prepares with 1/2/3 parameters (without closing), executions that bind or reuse, long data
+/// for parameters that exist or not, close - encoded the way a client that trusts the *previous*
+/// shape of the statement would. Only the no-panic / no-wedge oracle applies here.
+struct Lifecycles {
+    depth: usize,
+}
+impl Lifecycles {
+    fn alpha() -> Vec<super::registry::Action> {
+        use super::registry::{Action, Bind};
+        vec![
+            Action::Prepare { id: 1, n: 1, ok: true },
+            Action::Prepare { id: 1, n: 2, ok: true },
+            Action::Prepare { id: 1, n: 3, ok: true },
+            Action::Exec { id: 1, bind: Bind::A, null_first: false, shim_ignores: 0 },
+            Action::Exec { id: 1, bind: Bind::C, null_first: true, shim_ignores: 0 },
+            Action::Exec { id: 1, bind: Bind::Reuse, null_first: false, shim_ignores: 0 },
+            Action::Long { id: 1, param: 0, chunk: 1 },
+            Action::Long { id: 1, param: 2, chunk: 1 },
+            Action::Close { id: 1 },
+        ]
+    }
+    fn hist(&self, idx: u64) -> Vec<super::registry::Action> {
+        let a = Self::alpha();
+        digits(idx, &vec![a.len() as u64; self.depth]).iter().map(|i| a[*i as usize]).collect()
+    }
+}
+impl Family for Lifecycles {
+    fn name(&self) -> String {
+        format!("statement-lifecycles-depth-{}", self.depth)
+    }
+    fn len(&self) -> u64 {
+        (Self::alpha().len() as u64).pow(self.depth as u32)
+    }
+    fn run(&self, idx: u64, st: &mut Stats) -> Result<(), Violation> {
+        let h = self.hist(idx);
+        st.nontrivial += 1;
+        st.bump("lifecycle_inputs");
+        // two encodings: by a client whose model follows every re-prepare, and by one that still
+        // believes in the first shape it saw (so blocks are too short / too long for the server)
+        let mut s = default_handshake();
+        let mut reg = super::model::Registry::default();
+        let mut stale = super::model::Registry::default();
+        let stale_client = idx % 2 == 1;
+        for (step, a) in h.iter().enumerate() {
+            let p = if stale_client { super::registry::encode(&stale, a, step) } else { super::registry::encode(&reg, a, step) };
+            let _ = reg.route(&p);
+            if let super::registry::Action::Prepare { .. } = a {
+                if stale.stmts.is_empty() {
+                    let _ = stale.route(&p);
+                }
+            } else {
+                let _ = stale.route(&p);
+            }
+            s.extend_from_slice(&frame(0, &p).0);
+        }
+        s.extend_from_slice(&frame(0, &[COM_PING]).0);
+        judge(s, &format!("{}lifecycle {:?}", if stale_client { "stale-client " } else { "" }, h.iter().map(|a| a.short()).collect::<Vec<_>>()), st)
+    }
+    fn describe(&self, idx: u64) -> J {
+        json!({"history": self.hist(idx).iter().map(|a| a.short()).collect::<Vec<_>>(), "client_model": if idx % 2 == 1 { "stale (first prepare only)" } else { "follows every prepare" }})
+    }
+}
+
 pub fn build(quick: bool) -> Check {
     let mut families: Vec<Box<dyn Family>> = Vec::new();
     for l in 1..=(if quick { 5 } else { 7 }) {
@@ -794,6 +859,9 @@ pub fn build(quick: bool) -> Check {
         }));
     }
     families.push(Box::new(TlsGarbage::new(quick)));
+    for d in 1..=(if quick { 4 } else { 6 }) {
+        families.push(Box::new(Lifecycles { depth: d }));
+    }
     families.push(Box::new(LenencExtremes));
     families.push(Box::new(LargeInputs::new(if quick { &[MAXP, MAXP + 7] } else { &[MAXP - 1, MAXP, MAXP + 7, 2 * MAXP, 2 * MAXP + 7] })));
     families.push(Box::new(FragmentIds {
@@ -802,7 +870,7 @@ pub fn build(quick: bool) -> Check {
     Check {
         id: "C20",
         level: "model_checking",
-        rule: "client byte strings: all raw strings of length <= 5/7 over a 13-symbol alphabet of command and marker bytes (after handshake+PREPARE, and as the handshake itself); all framed payloads of length <= 2/3 over all 256 byte values; COM_STMT_EXECUTE parameter blocks (4 bitmaps x 3 flags x 256 type codes x unsigned x values of <= 3 bytes over 6 marker bytes, with and without a preceding valid bind; 1/2/9 declared parameters); every prefix of well-formed bind and reuse blocks x NULL bitmaps x pending long data x earlier bind; for 5 valid conversations and 3 handshake forms every single-byte substitution by every value (this includes every sequence id 0..255 and every length-field value on every packet), every truncation, deletion and duplication; two-fragment requests with every pair of fragment ids from a boundary set; variable-length parameter values behind every length-prefix form announcing 0..2^64-1 bytes (and every length byte for the temporal types) with 0..300 bytes present; requests of 2^24-1 bytes and more, well-formed or with a missing / lying continuation, under a read boundary at every position around each packet header and the end of the stream; an SSL request (to a shim that offers TLS) followed by anything but a TLS handshake: every 1- (thorough: 2-) byte string, TLS record headers of every content type / version / length class with partial bodies, a plaintext handshake response, a recorded ClientHello with every byte damaged five ways and every truncation - the shim must never be reached. Oracle: run_on returns (Ok or Err) without panicking and within 200000 transport operations; flushed output is well-framed. Non-trivial = input differs from a valid conversation.".into(),
+        rule: "client byte strings: all raw strings of length <= 5/7 over a 13-symbol alphabet of command and marker bytes (after handshake+PREPARE, and as the handshake itself); all framed payloads of length <= 2/3 over all 256 byte values; COM_STMT_EXECUTE parameter blocks (4 bitmaps x 3 flags x 256 type codes x unsigned x values of <= 3 bytes over 6 marker bytes, with and without a preceding valid bind; 1/2/9 declared parameters); every prefix of well-formed bind and reuse blocks x NULL bitmaps x pending long data x earlier bind; for 5 valid conversations and 3 handshake forms every single-byte substitution by every value (this includes every sequence id 0..255 and every length-field value on every packet), every truncation, deletion and duplication; two-fragment requests with every pair of fragment ids from a boundary set; variable-length parameter values behind every length-prefix form announcing 0..2^64-1 bytes (and every length byte for the temporal types) with 0..300 bytes present; requests of 2^24-1 bytes and more, well-formed or with a missing / lying continuation, under a read boundary at every position around each packet header and the end of the stream; every statement lifecycle of <= 4 (thorough: 6) actions over re-prepares with 1/2/3 parameters, bind/reuse executions, long data and close, encoded by a client that follows the re-prepares and by one that does not; an SSL request (to a shim that offers TLS) followed by anything but a TLS handshake: every 1- (thorough: 2-) byte string, TLS record headers of every content type / version / length class with partial bodies, a plaintext handshake response, a recorded ClientHello with every byte damaged five ways and every truncation - the shim must never be reached. Oracle: run_on returns (Ok or Err) without panicking and within 200000 transport operations; flushed output is well-framed. Non-trivial = input differs from a valid conversation.".into(),
         assumptions: vec![
             "random bytes are not used as a deciding step (sampling is outside this family)".into(),
             "the shim iterates all parameters and reads them with into_inner(); the panicking From<Value> conversions are the shim author's calls, not run_on's".into(),
@@ -811,6 +879,6 @@ pub fn build(quick: bool) -> Check {
         exhaustive: true,
         caps_hit: vec![],
         families,
-        required: vec!["tls_garbage_cases", "length_prefix_cases", "large_inputs", "outcome_ok", "outcome_err", "executes_reaching_the_shim", "sequence_id_mutations", "length_field_mutations", "out_of_order_fragments", "block_prefixes"],
+        required: vec!["lifecycle_inputs", "tls_garbage_cases", "length_prefix_cases", "large_inputs", "outcome_ok", "outcome_err", "executes_reaching_the_shim", "sequence_id_mutations", "length_field_mutations", "out_of_order_fragments", "block_prefixes"],
     }
 }
